@@ -12,7 +12,7 @@ def run(ctx: Ctx) -> None:
     info = qm.check_models(ctx)
     mscs, predicted = qm.model_scenarios(ctx, 'c08')
     mscs = [m for m in mscs if any(st['op'] == 'unreg' for st in m['steps'])]
-    scenarios, traces = run_family(ctx, 'C08', 'c08', 250, 4000, mscs)
+    scenarios, traces = run_family(ctx, 'C08', 'c08', 400, 12000, mscs)
     d = qm.drift(traces, predicted)
     for x in d[:5]:
         print('MODEL-DRIFT property=C08 scenario=%s real multicast answers %s, model predicts %s (evidence, not a verdict)'
